@@ -126,3 +126,23 @@ def random_points_partial_limits(h):
     env = dict(pop=pop, L0=L[0], L1=L[1], H0=H[0], H1=H[1])
     h.check('every-coordinate-within-its-limits-missing-ones-completed-by-the-defaults',
             ' and '.join('L%d <= pop[%d][%d] and pop[%d][%d] <= H%d' % (b, a, b, a, b, b) for a in range(NP) for b in range(D)), **env)
+
+
+@contract('C01/SetRandomInitialPoints/scalar-limits-are-rejected', ['C01', 'C05'], AS + '.SetRandomInitialPoints', native=False)
+def random_points_scalar_limits(h):
+    """limits given as plain numbers are NOT broadcast: the call raises TypeError and leaves the solver untouched.  The
+    one-line interfaces diffev / diffev2 rely on this to tell a 2-parameter start point [a, b] (unpair() gives the two
+    numbers a, b) from a list of (min, max) pairs -- were the numbers accepted as limits, the caller's start point would
+    silently be replaced by random points drawn from [a, b]"""
+    if not h.is_sym():
+        h.unsupported('symbolic only')
+    which = h.choice('scalar', ['both', 'min-only', 'max-only'])
+    pop = h.clist([h.vec('p0', 2), h.vec('p1', 2)])
+    s = h.obj(AS, nDim=2, nPop=2, population=pop, _defaultMin=h.clist([-1e3, -1e3]), _defaultMax=h.clist([1e3, 1e3]),
+              _strictMin=h.clist([]), _strictMax=h.clist([]), _useStrictRange=False)
+    p00 = h.snapshot(pop)
+    a = h.real('a') if which != 'max-only' else h.clist([h.real('a0'), h.real('a1')])
+    b = h.real('b') if which != 'min-only' else h.clist([h.real('b0'), h.real('b1')])
+    r, exc = h.call_raises(h.getattr(s, 'SetRandomInitialPoints'), a, b)
+    h.check('raises-TypeError', 'ok', ok=(exc == 'TypeError'))
+    h.check('population-untouched', 'same(s.population, pop) and seq_eq(pop[0], q[0]) and seq_eq(pop[1], q[1])', s=s, pop=pop, q=p00)
